@@ -201,8 +201,33 @@ def run_parts(prop, tier, scratch, parts, known, replay=None):
             rc = -9
         lf.close()
         if rc != 0:
+            if part.get("race") and any(f.startswith("race.%s.%d." % (part["name"], i)) for f in os.listdir(outdir)):
+                continue  # the race detector reported: turned into violations by race_violations()
             failed.append((part["name"], i, rc, lf.name))
     return outdir, failed, build_notes
+
+
+def race_violations(prop, outdir):
+    """Turns the race detector's log files into violations (fingerprint = the two racing functions)."""
+    import re
+    out = []
+    for f in sorted(os.listdir(outdir)):
+        if not f.startswith("race."):
+            continue
+        txt = open(os.path.join(outdir, f), errors="replace").read()
+        for rep in txt.split("==================\nWARNING: DATA RACE")[1:]:
+            fns = []
+            for blk in rep.split("\n\n")[:2]:
+                for line in blk.splitlines()[1:]:
+                    line = line.strip()
+                    if "panicparse/v2/" in line and "zz_verif" not in line and "(" in line:
+                        fn = line.split("(")[0].split("/")[-1]
+                        fns.append(fn)
+                        break
+            fp = "%s/data-race:%s" % (prop, "+".join(sorted(set(fns))) or "unknown")
+            out.append({"fingerprint": fp, "summary": "the race detector reported a data race between " + " and ".join(fns or ["?"]),
+                        "key": f, "kind": "race", "observed": ("WARNING: DATA RACE" + rep)[:4000], "reproduced": 1})
+    return out
 
 
 def merge(prop, outdir):
@@ -325,6 +350,9 @@ def main(argv):
                     sys.stdout.write(open(os.path.join(outdir, f)).read())
             return 1 if failed else 0
         m = merge(prop, outdir)
+        for v in race_violations(prop, outdir):
+            m["violations"].append(v)
+            m["violation_counts"][v["fingerprint"]] = m["violation_counts"].get(v["fingerprint"], 0) + 1
         if failed:
             for name, i, rcode, lf in failed:
                 log("shard %s/%d exited %s; tail of log:" % (name, i, rcode))
